@@ -519,9 +519,10 @@ Definition tonl_candidate (n : node) (c : diag * option (string * string)) : Pro
   (* a call pkg.F of an annotated function of the imported package *)
   (n_kind n = KCallExpr /\ exists f rest p, n_children n = f :: rest /\ n_kind f = KSelectorExpr /\ via_pkg f = Some p /\
       tonl_func fs p (a_name (n_attrs f)) = true /\ c = cand02 (n_pos n) (a_name (n_attrs f))) \/
-  (* a method call x.M() where the defined type of x carries an annotated method M *)
+  (* a method call x.M() where the receiver type of the selected method - also one promoted through an embedded field - carries
+     an annotated method M (for a call of a func-typed field: the defined type of x) *)
   (n_kind n = KCallExpr /\ exists f rest p tn, n_children n = f :: rest /\ n_kind f = KSelectorExpr /\ via_pkg f = None /\
-      type_info (a_ty (n_attrs f)) = Some (p, tn) /\ tonl_method fs p (a_name (n_attrs f)) tn = true /\ c = cand03 (n_pos n) (a_name (n_attrs f)) tn) \/
+      type_info (method_recv_type f) = Some (p, tn) /\ tonl_method fs p (a_name (n_attrs f)) tn = true /\ c = cand03 (n_pos n) (a_name (n_attrs f)) tn) \/
   (* a use of an annotated type: composite literal, typed var/const spec, field / parameter / result *)
   ((n_kind n = KCompositeLit \/ (n_kind n = KValueSpec /\ a_flag (n_attrs n) = true) \/ n_kind n = KField) /\
    exists p tn, type_info (a_ty (n_attrs n)) = Some (p, tn) /\ tonl_type fs p tn = true /\ c = cand01 (n_pos n) p tn).
@@ -546,7 +547,7 @@ Definition ident_cands (pos : Z) (f : node) : list (diag * option (string * stri
   | None => []
   end.
 Definition method_cands (pos : Z) (f : node) : list (diag * option (string * string)) :=
-  match type_info (a_ty (n_attrs f)) with
+  match type_info (method_recv_type f) with
   | Some (p, tn) => if tonl_method fs p (a_name (n_attrs f)) tn then [cand03 pos (a_name (n_attrs f)) tn] else []
   | None => []
   end.
@@ -591,9 +592,9 @@ Qed.
 
 Lemma method_cands_in pos f c :
   In c (method_cands pos f) <->
-  exists p tn, type_info (a_ty (n_attrs f)) = Some (p, tn) /\ tonl_method fs p (a_name (n_attrs f)) tn = true /\ c = cand03 pos (a_name (n_attrs f)) tn.
+  exists p tn, type_info (method_recv_type f) = Some (p, tn) /\ tonl_method fs p (a_name (n_attrs f)) tn = true /\ c = cand03 pos (a_name (n_attrs f)) tn.
 Proof.
-  unfold method_cands. destruct (type_info (a_ty (n_attrs f))) as [[p tn]|].
+  unfold method_cands. destruct (type_info (method_recv_type f)) as [[p tn]|].
   - destruct (tonl_method fs p (a_name (n_attrs f)) tn) eqn:E.
     + split; [intros [<-|[]]; exists p, tn; auto|]. intros (p' & tn' & H & _ & ->). inversion H; subst. left. reflexivity.
     + split; [intros []|]. intros (p' & tn' & H & H2 & _). inversion H; subst. congruence.
@@ -603,7 +604,7 @@ Qed.
 Lemma sel_cands_in pos f c :
   In c (sel_cands pos f) <->
   (exists p, via_pkg f = Some p /\ tonl_func fs p (a_name (n_attrs f)) = true /\ c = cand02 pos (a_name (n_attrs f))) \/
-  (via_pkg f = None /\ exists p tn, type_info (a_ty (n_attrs f)) = Some (p, tn) /\ tonl_method fs p (a_name (n_attrs f)) tn = true /\
+  (via_pkg f = None /\ exists p tn, type_info (method_recv_type f) = Some (p, tn) /\ tonl_method fs p (a_name (n_attrs f)) tn = true /\
                                      c = cand03 pos (a_name (n_attrs f)) tn).
 Proof.
   unfold sel_cands. destruct (via_pkg f) as [p|].
@@ -1003,7 +1004,7 @@ Proof.
     + exfalso. apply Hk.
       destruct (match n_children f with x :: _ => _ | [] => None end) as [p|].
       * destruct (tonl_func fs p (a_name (n_attrs f))); [eapply Hf; eassumption|contradiction].
-      * destruct (type_info (a_ty (n_attrs f))) as [[p tn]|]; [|contradiction].
+      * destruct (type_info (method_recv_type f)) as [[p tn]|]; [|contradiction].
         destruct (tonl_method fs p (a_name (n_attrs f)) tn); [|contradiction]. destruct Hc as [<-|[]]. reflexivity.
     + exfalso. apply Hk. destruct (a_obj (n_attrs f)) as [o|]; [|contradiction].
       destruct (o_kind o); try contradiction. destruct (o_pkg o) as [p|]; [|contradiction].
